@@ -853,29 +853,36 @@ fn main() {
         // The counterexample's own input shows nothing through the public API (typical for a
         // kernel that is not a parser, e.g. fill_buf): try canonical well-formed inputs, still only
         // to confirm that the defect the solver found is reachable through the public API.
-        let canon: [(&str, &[u8]); 10] = [
-            ("fasta", b">a\nAC\n>b\nG\n"),
-            ("fasta", b"\r\n\r\n>a\r\nA\r\nC\r\n>b\r\nG"),
-            ("fasta", b"\n\n\n\n>a b\nACGT\nAC\n>\n>c\nT\n\n"),
-            ("fasta", b"\r\n\r\nx"),
-            ("fastq", b"@a\nAC\n+\nII\n@b\nG\n+\nI\n"),
-            ("fastq", b"@a x\r\nAC\r\n+\r\nII\r\n@b\r\nG\r\n+\r\nI"),
-            ("fastq", b"@a\nAC\n+\nII\n@b\nG\n+\nI\n\r\n\n"),
-            ("fastq", b"@a\nAC\n+\nII\n@b\nGG\n+a"),
-            ("fastq", b"@a\nAC\n+\nII\n@b x\nTT"),
-            ("fastq", b"@a\nACGT\n+\nIIII\n@second"),
+        // (format, input, length of the call histories explored on it)
+        let canon: [(&str, &[u8], usize); 16] = [
+            ("fasta", b">a\nAC\n>b\nG\n", 2),
+            ("fasta", b"\r\n\r\n>a\r\nA\r\nC\r\n>b\r\nG", 2),
+            ("fasta", b"\n\n\n\n>a b\nACGT\nAC\n>\n>c\nT\n\n", 3),
+            ("fasta", b"\r\n\r\nx", 2),
+            ("fastq", b"@a\nAC\n+\nII\n@b\nG\n+\nI\n", 2),
+            ("fastq", b"@a x\r\nAC\r\n+\r\nII\r\n@b\r\nG\r\n+\r\nI", 2),
+            ("fastq", b"@a\nAC\n+\nII\n@b\nG\n+\nI\n\r\n\n", 2),
+            ("fastq", b"@a\nAC\n+\nII\n@b\nGG\n+a", 2),
+            ("fastq", b"@a\nAC\n+\nII\n@b x\nTT", 2),
+            ("fastq", b"@a\nACGT\n+\nIIII\n@second", 2),
+            ("fastq", b"@a\nA\n+\nI\n@b\nCC\n+\nII\n@c\nG\n+\nI\n", 3),
+            ("fastq", b"@a\nA\n+\nI\n@b\nCC\n+\nI\n@c\nG\n+\nI\n", 2),
+            ("fastq", b"@a\nA\n+\nI\n@b\nC\n+\nI\nx\nG\n+\nI\n", 2),
+            ("fastq", b"@a\nAC\n+\nII\n@b\nACGT\n+\nIIII", 2),
+            ("fasta", b">a\r\nAC\r\n\r\nT\r\n>\r\nG\r\n\r\n", 2),
+            ("fasta", b">a\nACGTACGT\n>b desc\nTTTTGGGGCC\nAA\n>c\nAC\n", 2),
         ];
-        let blank_tails: [(&str, &[u8]); 4] = [("fasta", b"\n\n\r"), ("fasta", b"\r"), ("fasta", b"\r\n\r\n\r"), ("fastq", b"@a\nA\n+\nI\n\r\n\r")];
-        for (fm, data) in canon.iter().chain(blank_tails.iter()) {
+        let blank_tails: [(&str, &[u8], usize); 4] = [("fasta", b"\n\n\r", 2), ("fasta", b"\r", 2), ("fasta", b"\r\n\r\n\r", 2), ("fastq", b"@a\nA\n+\nI\n\r\n\r", 2)];
+        for (fm, data, hl) in canon.iter().chain(blank_tails.iter()) {
             if !fmts.contains(fm) {
                 continue;
             }
             // each input under a watchdog: a call that does not return is a finding of its own (C06)
             let (tx, rx) = std::sync::mpsc::channel();
-            let (fm2, data2) = (fm.to_string(), data.to_vec());
+            let (fm2, data2, hl2) = (fm.to_string(), data.to_vec(), *hl);
             std::thread::spawn(move || {
                 let caps: Vec<usize> = (3..=data2.len() + 2).collect();
-                let r = run_monitors(&fm2, &data2, 2, &caps);
+                let r = run_monitors(&fm2, &data2, hl2, &caps);
                 let _ = tx.send(r);
             });
             match rx.recv_timeout(std::time::Duration::from_secs(20)) {
